@@ -170,7 +170,10 @@ def check(tier):
         rep.failure("hang", {"hang"}, {"entry_point": op, "input_text": t[:400], "input_length": len(t)})
 
     # ---- patterns ----
-    pats = list(PATTERNS) + list(R.EVERY_CONSTRUCT) + list(R.PROBLEM) + list(R.ALL_ESCAPES) + ["$", "^", "^$", "($)", "(^)", "a|$", "($)*", "(^a$)+", "a{0,0}", "(ab){0}x", "()*", "(|)"]
+    pats = list(PATTERNS) + list(R.EVERY_CONSTRUCT) + list(R.PROBLEM) + list(R.ALL_ESCAPES) + ["$", "^", "^$", "($)", "(^)", "a|$", "($)*", "(^a$)+", "a{0,0}", "(ab){0}x", "()*", "(|)",
+                                                                                                              # bounds beyond the machine integer (they wrap around in the mappers' arithmetic)
+                                                                                                              "a{9223372036854775808}", "(ab){9223372036854775808,}", "x[0-9]{18446744073709551610}y",
+                                                                                                              "a{18446744073709551615,18446744073709551616}", "a{0,18446744073709551610}"] + list(R.EDGE_BLANKS) + list(R.EXTREME_GROUPS)
     pats += R.small_exhaustive() if tier != "quick" else R.small_exhaustive()[::4]
     docpats = [R.gen_tree(rng, rng.randint(1, 3)) for _ in range(150 if tier == "quick" else 3000)]
     pats += docpats + R.mutations(rng, docpats + list(R.EVERY_CONSTRUCT), 150 if tier == "quick" else 3000)
